@@ -251,6 +251,7 @@ class RDFLibGraphsAdapter(RDFLibQuadsBaseAdapter):
 
     @override
     def triple(self, terms: Iterable[Any]) -> Quad:
+        self.graph  # a triple outside of any graph is invalid  # noqa: B018
         return Quad(*chain(terms, [self._graph_id]))
 
     @override
